@@ -99,12 +99,15 @@ def gen_scripted(rnd, tier):
     return cases
 
 
-def loopback_round(port, size, pacing, via_protocol):
+HOLD_BACK = 6000
+
+
+def loopback_round(port, size, pacing, via_protocol, close_after_send=False):
     """a passive HSMS endpoint on the loopback interface sends `size` bytes to a real socket that reads with the given pacing"""
     tcpmod.TcpConnection.select_timeout = 0.02
     settings = secsgem.hsms.HsmsSettings(address="127.0.0.1", port=port, connect_mode=secsgem.hsms.HsmsConnectMode.PASSIVE, device_id=0)
     proto = secsgem.hsms.HsmsProtocol(settings)
-    obs = {"size": size, "pacing": pacing, "via_protocol": via_protocol}
+    obs = {"size": size, "pacing": pacing, "via_protocol": via_protocol, "closed_right_after_send": close_after_send}
     proto.enable()
     try:
         deadline = time.monotonic() + 5
@@ -138,12 +141,20 @@ def loopback_round(port, size, pacing, via_protocol):
         expected_len = len(payload)
         done = threading.Event()
 
+        hold = threading.Event()      # set while the peer does not read (the endpoint is being closed)
+        resume = threading.Event()
+
         def reader():
             if pacing == "delayed":
                 time.sleep(0.4)
             sock.settimeout(5)
             try:
                 while len(received) < expected_len:
+                    if close_after_send and not resume.is_set() and len(received) >= expected_len - HOLD_BACK:
+                        # the peer stops reading shortly before the end: the send still completes (the tail fits the socket buffers),
+                        # part of it is still in the sender's kernel buffer when the endpoint closes
+                        hold.set()
+                        resume.wait(5)
                     chunk = sock.recv(512 if pacing == "small_reads" else 65536)
                     if not chunk:
                         break
@@ -160,9 +171,21 @@ def loopback_round(port, size, pacing, via_protocol):
         ok = common.with_deadline((lambda: proto.send_message(message)) if via_protocol else (lambda: conn.send_data(payload)), 60.0)
         obs["reported"] = bool(ok)
         obs["send_seconds"] = round(time.monotonic() - t0, 2)
+        if close_after_send:
+            # the endpoint closes while the peer has not drained what the kernel still holds (the peer pauses), then the peer reads on until EOF
+            hold.wait(5)
+            obs["unread_when_closed"] = expected_len - len(received)
+            common.with_deadline(proto.disable, 15.0)
+            time.sleep(0.3)
+            resume.set()
         done.wait(20)
         obs["received"] = len(received)
         obs["identical"] = bytes(received) == payload
+        if close_after_send and len(received) > expected_len:
+            # disable() announces the end with a Separate.req (a 14-byte control frame, SType 9) behind the data
+            tail = bytes(received[expected_len:])
+            obs["trailing_control_frame"] = tail.hex()
+            obs["identical"] = bytes(received[:expected_len]) == payload and len(tail) == 14 and tail[:4] == b"\x00\x00\x00\x0a" and tail[9] == 9
         if not obs["identical"] and len(received):
             n = min(len(received), len(payload))
             first = next((i for i in range(n) if received[i] != payload[i]), n)
@@ -258,6 +281,16 @@ def run(tier, replay=None):
                 break
         if any(v for v in report.violations if "tcp" in v):
             break
+    # success was reported, the endpoint is disabled at once, the slow peer reads on until EOF: nothing of the accepted bytes may be missing
+    for size in ([60000] if tier == "quick" else [3000, 20000, 60000, 300000]):
+        k += 1
+        obs = common.guarded(lambda size=size, k=k: loopback_round(base + k, size, "small_reads", False, True), f"loopback: {size} bytes, endpoint disabled right after the send", twedged, 120.0)
+        if obs is None:
+            continue
+        rounds.append(obs)
+        if obs["reported"] and not obs["identical"]:
+            report.violation({"kind": "counterexample", "what": "send_data() reported success, the endpoint was closed, and the peer reading until EOF did not receive the bytes complete", **obs}, True, tag="tcp")
+            break
     # whole messages through the protocol's send queue, around the packet size
     for size in ([1024 * 1024 + 1] if tier == "quick" else [1024 * 1024 - 14, 1024 * 1024 - 13, 1024 * 1024 + 1, 2 * 1024 * 1024 + 5, 3 * 1024 * 1024 - 14]):
         k += 1
@@ -285,7 +318,7 @@ def run(tier, replay=None):
                    "handed over and the reported result are compared with the model and the statement; and real transfers from a TcpServerConnection to a loopback socket with 4 KiB socket "
                    "buffers: 1 byte to 4 MiB, receiver reading at once, after a delay, or in 512-byte reads; received bytes compared with what was sent")
     cov["correspondence"] = {k2: v for k2, v in stats.items() if k2 != "eval_errors"}
-    cov["loopback"] = [{k2: o[k2] for k2 in ("size", "pacing", "reported", "identical", "send_seconds")} for o in rounds]
+    cov["loopback"] = [{k2: o.get(k2) for k2 in ("size", "pacing", "closed_right_after_send", "reported", "identical", "received", "send_seconds")} for o in rounds]
     cov["distribution"] = {"data_sizes": dict(Counter(len(c[1]) for c in cases)), "script_lengths": dict(Counter(len(c[0]) for c in cases))}
     cov["samples"] = [f"{c[0]} / {len(c[1])} bytes" for c in cases[:: max(1, len(cases) // 5)][:5]]
     code = report.finish()
